@@ -555,6 +555,45 @@ def _f64_to_string(M, fr, n, a):
     return Str(text)
 @reg(r'^<f64 as std::ops::Neg>::neg$')
 def _f64_neg(M, fr, n, a): return Opaque(('float', -float(a[0].tag[1])))
+# ------------------------------------------------------------------ lazy_static + regex by contract (pattern read from the MIR)
+_LAZY = {}
+@reg(r'^lazy_static::lazy::Lazy::<.*>::get::<.*>$|^lazy_static::lazy::Lazy::get$')
+def _lazy_get(M, fr, n, a):
+    """Lazy::get(&self, f): f() evaluated once; a reference to the value afterwards (initialisation order is not observable here)"""
+    f = a[1]
+    v = M.call_closure(fr, f, [])
+    return Ref(Cell(v))
+@reg(r'^regex::Regex::new$|^regex::regex::string::Regex::new$')
+def _regex_new(M, fr, n, a):
+    p = as_str(M, a[0]).conc()
+    if p is None: raise Unsupported('symbolic regex pattern')
+    from . import regexmodel
+    regexmodel.parse(p)                      # an unsupported pattern is reported where it is built
+    return ok(Agg('regex::Regex', [Str(p)]))
+@reg(r'^regex::Regex::(captures|is_match|find)$|^regex::regex::string::Regex::(captures|is_match|find)$')
+def _regex_captures(M, fr, n, a):
+    from . import regexmodel
+    re_ = D(M, a[0]); text = as_str(M, a[1])
+    if isinstance(text, SymStr): raise Unsupported('regex over an opaque string')
+    g = regexmodel.search(M, re_.f[0].conc(), list(text.b))
+    if n.endswith('is_match'): return g is not None
+    if g is None: return none()
+    if n.endswith('find'): return some(Agg('regex::Match', [Str(list(text.b[g[0][0]:g[0][1]])), g[0][0], g[0][1]]))
+    return some(Agg('regex::Captures', [Str(list(text.b)), Opaque(tuple(g))]))
+@reg(r"^<regex::Captures<'_> as std::ops::Index<usize>>::index$|^<regex::regex::string::Captures<'_> as std::ops::Index<usize>>::index$")
+def _regex_cap_index(M, fr, n, a):
+    cap = D(M, a[0]); i = simp(a[1])
+    if is_sym(i): raise Unsupported('symbolic capture index')
+    g = cap.f[1].tag
+    if i >= len(g) or g[i] is None: raise Panic('no group at index %d' % i)       # documented: indexing a group that did not participate panics
+    return Ref(Cell(Str(list(cap.f[0].b[g[i][0]:g[i][1]]))))
+@reg(r"^regex::Captures::<'_>::get$|^regex::Captures::get$")
+def _regex_cap_get(M, fr, n, a):
+    cap = D(M, a[0]); i = simp(a[1]); g = cap.f[1].tag
+    if i >= len(g) or g[i] is None: return none()
+    return some(Agg('regex::Match', [Str(list(cap.f[0].b[g[i][0]:g[i][1]])), g[i][0], g[i][1]]))
+@reg(r"^regex::Match::<'_>::as_str$|^regex::Match::as_str$")
+def _regex_match_str(M, fr, n, a): return Ref(Cell(D(M, a[0]).f[0]))
 @reg(r'^<.* as std::iter::Iterator>::count$')
 def _iter_count(M, fr, n, a): return len(drain_all(M, fr, to_iter(M, fr, a[0])))
 @reg(r'^<.* as std::iter::Iterator>::last$')
@@ -1157,30 +1196,37 @@ def user_display(M, fr, ty, ref):
     if key is None or not M.prog.items[key].blocks: return None
     f = Cell(Agg('fmt::Formatter', [Str([])]))
     r = M.call_fn(key, [v if isinstance(v, Ref) else Ref(Cell(v)), Ref(f)])
-    return list(f.v.f[0].b)
+    return f.v.f[0] if isinstance(f.v.f[0], SymStr) else list(f.v.f[0].b)
 @reg(r'^<.* as std::string::ToString>::to_string$|^<.* as std::string::SpecToString>::spec_to_string$')
 def _to_string_display(M, fr, n, a):
     m = re.match(r'^<(.*) as std::string::(Spec)?ToString>::', n); ty = m.group(1)
     if fr.generics and ty in fr.generics: ty = fr.generics[ty]
     v = M.deref(a[0])
+    if isinstance(v, SymStr): return v
     if isinstance(v, Str): return Str(list(v.b))
     t = ty.lstrip('&').strip()
     if t in INT_W and t not in ('bool', 'char'): return Str(render_int(M, v, t))
     if t == 'char': return Str(encode_char(M, v))
     r = user_display(M, fr, ty, a[0])
     if r is None: raise Unsupported('to_string of ' + ty)
-    return Str(r)
+    return r if isinstance(r, SymStr) else Str(r)
 @reg(r"^std::fmt::Formatter::<'_>::write_str$|^std::fmt::Formatter::write_str$|^<std::fmt::Formatter<'_> as std::fmt::Write>::write_str$|^<str as std::fmt::Display>::fmt$|^<std::string::String as std::fmt::Display>::fmt$|^std::fmt::Formatter::<'_>::pad$|^std::fmt::Formatter::pad$")
 def _fmt_write_str(M, fr, n, a):
     if n.endswith('::fmt'): s_, f = as_str(M, a[0]), D(M, a[1])
     else: f, s_ = D(M, a[0]), as_str(M, a[1])
     if not (isinstance(f, Agg) and f.name == 'fmt::Formatter'): raise Unsupported('formatter %r' % (f,))
+    if isinstance(s_, SymStr):
+        f.f[0] = s_ if (isinstance(f.f[0], Str) and not f.f[0].b) else SymStr(M.fresh_bv('fmt', 32)); return ok(UNIT)
+    if isinstance(f.f[0], SymStr):
+        f.f[0] = SymStr(M.fresh_bv('fmt', 32)); return ok(UNIT)
     f.f[0].b.extend(s_.b); return ok(UNIT)
 @reg(r"^std::fmt::Formatter::<'_>::write_fmt$|^std::fmt::Formatter::write_fmt$|^<std::fmt::Formatter<'_> as std::fmt::Write>::write_fmt$")
 def _fmt_write_fmt(M, fr, n, a):
     f = D(M, a[0])
     if not (isinstance(f, Agg) and f.name == 'fmt::Formatter'): raise Unsupported('formatter %r' % (f,))
     r = _fmt_format(M, fr, n, [a[1]])
+    if isinstance(r, SymStr) or isinstance(f.f[0], SymStr):
+        f.f[0] = SymStr(M.fresh_bv('fmt', 32)); return ok(UNIT)        # opaque text: the formatter's content is an unconstrained string from here on
     if not isinstance(r, Str): raise Unsupported('opaque format arguments written to a formatter')
     f.f[0].b.extend(r.b); return ok(UNIT)
 @reg(r"^std::fmt::Formatter::<'_>::write_char$|^std::fmt::Formatter::write_char$|^<char as std::fmt::Display>::fmt$")
@@ -1217,7 +1263,7 @@ def _fmt_format(M, fr, n, a):
         if opts & 8: ai = t[i] | (t[i + 1] << 8); i += 2
         if ai >= len(args): return SymStr(M.fresh_bv('fmt', 32))
         r = render_arg(M, fr, args[ai]); ai += 1
-        if r is None: return SymStr(M.fresh_bv('fmt', 32))
+        if r is None or isinstance(r, SymStr): return SymStr(M.fresh_bv('fmt', 32))
         if width is not None and len(r) < width:
             pad = list(chr(fill).encode()) * (width - len(r))
             isnum = True
@@ -1782,3 +1828,21 @@ def _str_replace(M, fr, n, a):
         if p and i + len(p) <= len(s_.b) and M.branch(_match_at(s_, i, p)): out.extend(to); i += len(p)
         else: out.append(s_.b[i]); i += 1
     return Str(out)
+
+# registered last: every specific Deref model above takes precedence
+@reg(r'^<.* as std::ops::Deref>::deref$')
+def _lazy_static_deref(M, fr, n, a):
+    """`Deref` of a lazy_static! value: the impl is generated at the macro's span (identical printed path for every static of the crate);
+    the n-th `deref(_1: &X)` in the dump belongs to the n-th `deref::__static_ref_initialize`.  The initialiser is evaluated once."""
+    ty = re.match(r'^<(.*) as std::ops::Deref>::deref$', n).group(1)
+    for (crate, base), names in M.prog.dups.items():
+        if not base.endswith('::deref') or 'lazy_static' not in base: continue
+        for j, nm in enumerate(names):
+            it = M.prog.items[(crate, nm)]
+            if it.args and it.locals.get(it.args[0], '').lstrip('&').strip() == ty:
+                inits = M.prog.dups.get((crate, base + '::__static_ref_initialize'), [])
+                if j >= len(inits): raise Unsupported('lazy_static initialiser of ' + ty)
+                key = (crate, inits[j])
+                if key not in _LAZY: _LAZY[key] = M.call_fn(key, [])
+                return Ref(Cell(_LAZY[key]))
+    return NotImplemented
